@@ -22,7 +22,9 @@ GUARD = "MDPAX_VERIF"
 ALLOWED_AXIOMS = {"propext", "Classical.choice", "Quot.sound"}
 FORBIDDEN = re.compile(r"\bsorry\b|\badmit\b|^axiom\s|native_decide|bv_decide|implemented_by|\bunsafe\s|maxHeartbeats\s+0")
 
-TRANSLATED = {"C18", "C20"}     # properties whose Lean module imports definitions generated from the Python source
+# properties with a tie by translation: (part of harness/translate.py to regenerate, leaf Lean module holding the "translated code = model" theorems).
+# The leaf modules are imported by nothing, so a change of the translated source can only affect the property it belongs to.
+TRANSLATED = {"C18": ("Batch", "C18Gen"), "C20": ("Config", "C20Gen")}
 
 TRUSTED_BASE = [
     "Lean 4.33.0 kernel (leanchecker re-check in the thorough tier); Mathlib v4.33.0 as checked library",
@@ -74,15 +76,23 @@ class LeanAudit:
         src = LEAN / "MdpaxV" / "Props" / f"{self.prop}.lean"
         text = src.read_text()
         self.obligations = re.findall(r"^theorem\s+(\S+)", text, flags=re.M)
+        qualified = {t: f"MdpaxV.{self.prop}.{t}" for t in self.obligations}
+        mods = [mod]
+        if self.prop in TRANSLATED:
+            leaf = TRANSLATED[self.prop][1]
+            extra = re.findall(r"^theorem\s+(\S+)", (LEAN / "MdpaxV" / "Props" / f"{leaf}.lean").read_text(), flags=re.M)
+            self.obligations += extra
+            qualified.update({t: f"MdpaxV.{leaf}.{t}" for t in extra})
+            mods.append(f"MdpaxV.Props.{leaf}")
         # tie by translation (C18, C20): regenerate MdpaxV/Gen/Code.lean from /repo's source before building; the theorems of
         # Theory/GenTie.lean (restated in the property files) then re-prove "translated code = model" against what the code says now
         self.translator = None
         if self.prop in TRANSLATED:
             from harness import translate
             try:
-                changed, _ = translate.generate()
+                changed, _ = translate.generate(TRANSLATED[self.prop][0])
                 self.translator = "regenerated-changed" if changed else "regenerated-identical"
-                self.cmds.append("python3 harness/translate.py  (MdpaxV/Gen/Code.lean from src/mdpax/utils/{batch_processing,logging}.py)")
+                self.cmds.append(f"python3 harness/translate.py  (MdpaxV/Gen/{TRANSLATED[self.prop][0]}.lean from /repo's Python source)")
             except translate.Untranslatable as e:
                 self.translator = f"untranslatable: {e}"
                 self.log += f"translator: {e}\n"
@@ -91,7 +101,7 @@ class LeanAudit:
                 self.forbidden_hits = []
                 self.ok = False
                 return self
-        cmd = ["lake", "build", "MdpaxV", mod]      # the library root = every model module the driver imports
+        cmd = ["lake", "build", "MdpaxV"] + mods      # the library root = every model module the driver imports
         self.cmds.append("cd lean && " + " ".join(cmd))
         p = subprocess.run(cmd, cwd=LEAN, capture_output=True, text=True)
         self.log = p.stdout + p.stderr
@@ -101,15 +111,15 @@ class LeanAudit:
             # independent axiom audit of *every* theorem of the property file
             with tempfile.TemporaryDirectory(prefix="mdpaxv_ax_") as td:
                 f = Path(td) / "Axioms.lean"
-                f.write_text(f"import {mod}\n" + "".join(f"#print axioms MdpaxV.{self.prop}.{t}\n" for t in self.obligations))
+                f.write_text("".join(f"import {m_}\n" for m_ in mods) + "".join(f"#print axioms {qualified[t]}\n" for t in self.obligations))
                 cmd2 = ["lake", "env", "lean", str(f)]
                 self.cmds.append("cd lean && lake env lean <#print axioms for every theorem of Props/%s.lean>" % self.prop)
                 p2 = subprocess.run(cmd2, cwd=LEAN, capture_output=True, text=True)
                 self.log += p2.stdout + p2.stderr
                 txt = (p2.stdout + p2.stderr).replace("\n  ", " ").replace("\n ", " ")
-            for m in re.finditer(r"'MdpaxV\.%s\.(\S+)' depends on axioms:\s*\[([^\]]*)\]" % self.prop, txt):
+            for m in re.finditer(r"'MdpaxV\.\w+\.(\S+)' depends on axioms:\s*\[([^\]]*)\]", txt):
                 axioms[m.group(1)] = {a.strip() for a in m.group(2).split(",") if a.strip()}
-            for m in re.finditer(r"'MdpaxV\.%s\.(\S+)' does not depend on any axioms" % self.prop, txt):
+            for m in re.finditer(r"'MdpaxV\.\w+\.(\S+)' does not depend on any axioms", txt):
                 axioms[m.group(1)] = set()
         self.axioms = {k: sorted(v) for k, v in axioms.items()}
         # forbidden constructs anywhere in the library (outside comments)
@@ -123,7 +133,7 @@ class LeanAudit:
             else:
                 self.failed.append(t)
         if thorough and build_ok:
-            cmd2 = ["lake", "env", "leanchecker", mod]
+            cmd2 = ["lake", "env", "leanchecker"] + mods
             self.cmds.append("cd lean && " + " ".join(cmd2))
             p2 = subprocess.run(cmd2, cwd=LEAN, capture_output=True, text=True)
             self.log += p2.stdout + p2.stderr
